@@ -35,6 +35,9 @@ FN = "orm/unitofwork.py::UOWTransaction.execute"
 
 
 class _Env(dict):
+    def get(self, key, default=None):
+        return self[key] if key in self else default
+
     def __missing__(self, key):
         raise HF.Skip(f"no object {key} in this graph")
 
@@ -61,7 +64,7 @@ def run_seq(w, gi, idxs):
                 w.ops[k][1](env, s)
             except (ValueError, HF.Skip, sa_exc.InvalidRequestError):
                 return dict(status="inapplicable")
-        unsat = w.unsat(env, s) or HF.generic_unsat(env, s)
+        unsat = w.unsat(env, s) or HF.generic_unsat(env, s) or env.get("_contradiction")
         HF._REC["log"] = []
         HF._REC["on"] = True
         err = None
@@ -78,7 +81,7 @@ def run_seq(w, gi, idxs):
             if unsat is not None and legit:
                 return dict(status="expected_failure", unsat=unsat, error=type(err).__name__, events=events)
             return dict(status="fail", kind="flush-raised:" + type(err).__name__, unsat=unsat, events=events,
-                        broken=[f"flush raised {type(err).__name__}: {str(err).splitlines()[0][:200]}"] + problems[:4])
+                        broken=[f"flush raised {type(err).__name__}: {(str(err).splitlines() or [""])[0][:200]}"] + problems[:4])
         if problems:
             return dict(status="fail", kind="order", events=events, broken=problems, unsat=unsat)
         db = HF.read_db(s.connection(), w.Base.metadata)
@@ -100,7 +103,7 @@ def descriptor(w, gi, idxs, r):
 
 
 # ----------------------------------------------------------------------------------------------- worker
-QUICK_LENGTH3 = ("selfref", "post_update")     # the mappings whose flushes take the per-state cycle path: length 3 (core catalogue) already in quick
+QUICK_LENGTH3 = ("selfref", "post_update", "mutual")     # the mappings whose flushes take the per-state cycle path: length 3 (core catalogue) already in quick
 
 
 def _worker(job):
@@ -199,9 +202,10 @@ def run(run, tier, seed, args):
              "events (so that an order exists); distinct_nontrivial counts DISTINCT (world, initial graph, emitted row-event stream) triples among them",
         samples=pick_samples(agg.get("samples", [])),
         exhaustive=True,
-        scope=f"SQLite :memory:, PRAGMA foreign_keys=ON (immediate), autoflush off; mappings: one-to-many/many-to-one with nullable FK (no cascade), NOT NULL FK + "
+        scope=f"SQLite :memory:, PRAGMA foreign_keys=ON (immediate), autoflush off; mappings: unidirectional one-to-many (nullable FK nullify; NOT NULL FK + 'all, delete-orphan') and "
+              f"unidirectional many-to-one; bidirectional one-to-many/many-to-one with nullable FK (no cascade), NOT NULL FK + "
               f"'all, delete-orphan', NOT NULL FK without cascade, NOT NULL FK + ON DELETE CASCADE + passive_deletes; many-to-many through a secondary table "
-              f"(composite primary key); self-referential adjacency list (plain and 'all, delete-orphan') whose class also has a unidirectional one-to-many and a "
+              f"(composite primary key), bidirectional and unidirectional; two mutually dependent classes WITHOUT post_update (acyclic rows, per-state path over two mappers); self-referential adjacency list (plain and 'all, delete-orphan') whose class also has a unidirectional one-to-many and a "
               f"unidirectional many-to-many to classes outside the cycle; two mutually dependent classes with post_update; joined-table inheritance (emp <- eng, mgr "
               f"with eng.manager_id -> mgr and emp.company_id -> company); two initial graphs (<= 4 rows per table) per mapping; operation catalogues "
               f"(add, delete, set / clear the many-to-one side, append / remove on the collection side, move between parents, remove + delete of the related row, "
@@ -219,6 +223,7 @@ def run(run, tier, seed, args):
     run.assumptions += [
         "SQLite's immediate foreign-key enforcement stands for PostgreSQL / MariaDB; the shadow replay of the recorded statements is the same rule evaluated "
         "independently of SQLite",
+        "mutually dependent tables without post_update: transitions whose previous + new row references form a cycle are outside (documented need for post_update)",
         "UNIQUE is present only as primary keys (including the composite key of the association table); swapping unique values between rows is outside",
         "the precondition 'the intended final state satisfies the schema' is decided per mapping from the in-memory state before the flush (see rtc/h_flush.py "
         "`unsat`); such flushes may raise IntegrityError / FlushError / CircularDependencyError and are not judged further",
@@ -253,14 +258,21 @@ def report(run, failures):
                            actual=d["broken"], reason="bounded run-time contract check"))
 
 
+REPLAY_ATTEMPTS = 40
+
+
 def replay(data):
     H.quiet()
     d = data["input"]
     w = HF.world(d["world"])
     idxs = [w.opnames.index(n) for n in d["ops"]]
-    r = run_seq(w, d["graph"], idxs)
+    # the order among actions that the unit of work leaves unordered depends on object addresses: repeat the case
+    for attempt in range(1, REPLAY_ATTEMPTS + 1):
+        r = run_seq(w, d["graph"], idxs)
+        if r["status"] == "fail":
+            break
     if r["status"] == "fail":
-        print(f"REPLAY-FAILS {FN}/{w.name} graph={d['graph']} ops={d['ops']} kind={r['kind']} broken={r['broken']} statements={r['events']}")
+        print(f"REPLAY-FAILS {FN}/{w.name} (attempt {attempt} of {REPLAY_ATTEMPTS}) graph={d['graph']} ops={d['ops']} kind={r['kind']} broken={r['broken']} statements={r['events']}")
         return 1
-    print(f"REPLAY-PASSES {FN}/{w.name} graph={d['graph']} ops={d['ops']} status={r['status']} statements={r.get('events')}")
+    print(f"REPLAY-PASSES {FN}/{w.name} ({REPLAY_ATTEMPTS} attempts) graph={d['graph']} ops={d['ops']} status={r['status']} statements={r.get('events')}")
     return 0
